@@ -8,10 +8,44 @@ class CallGraph:
         self.edges = {}        # defn -> set(defn) (local bodies)
         self.ext = {}          # defn -> list of (bb, info) external / unresolved callees
         self.generic = {}      # defn -> list of (bb, info) calls of trait methods on type parameters
+        # user-written Drop impls: a `drop` terminator of a value that is (or contains) such a type runs that code
+        drop_impls = {}
+        for b in crate.bodies.values():
+            if b.impl and b.impl.get("trait") == "core::ops::drop::Drop" and b.kind in ("Fn", "AssocFn"):
+                p_ = b.impl["self"].get("path")
+                if p_:
+                    drop_impls[p_] = b.defn
+        fields_of = {a["path"]: [f["ty"] for v in a["variants"] for f in v["fields"]] for a in crate.items["adts"]} if drop_impls else {}
+
+        def drops_of(ty, seen):
+            out = set()
+            stack = [ty]
+            while stack:
+                t_ = stack.pop()
+                if not isinstance(t_, dict):
+                    continue
+                if t_.get("k") == "adt":
+                    p_ = t_.get("path")
+                    if p_ in drop_impls:
+                        out.add(drop_impls[p_])
+                    if p_ in fields_of and p_ not in seen:
+                        seen.add(p_)
+                        stack.extend(fields_of[p_])
+                    stack.extend(t_.get("args", []))
+                elif t_.get("k") in ("array", "slice"):
+                    stack.append(t_.get("t"))
+                elif t_.get("k") == "tuple":
+                    stack.extend(t_.get("ts", []))
+            return out
         for b in crate.bodies.values():
             es = set()
             ext = []
             gen = []
+            if drop_impls:
+                for blk in b.blocks:
+                    t_ = blk["term"]
+                    if t_["k"] == "drop":
+                        es |= drops_of(t_["place"].get("ty"), set())
             for bb, t, info in mir.calls(b):
                 d = info["def"]
                 if d in crate.bodies:
